@@ -15,6 +15,19 @@ saturated, throwing, trapping, and also `undefined`).
 
 * `neg_correct`, `convert_correct`      unary minus (judged in the promoted type) and integer
                                         conversion between any two types.
+* `wrapper_convert_correct`, `wrapper_convert_negative_to_unsigned`   an overflow_integer converted AS A NUMBER
+                                        (converting constructor from a related or unrelated wrapper or a built-in,
+                                        assignment, argument passing, conversion operator to a built-in:
+                                        `wrapperConvert`): the tagged conversion of the representation, for any source
+                                        width (elastic sources have widths no built-in has); a negative value never
+                                        reaches an unsigned destination, however many digits the destination has.
+* `radix_scale_correct`                 `scaled_integer<S, power<0, r>>` → `scaled_integer<overflow_integer<D, tag>,
+                                        power<-k, r'>>` (different radixes, intrinsic path, source at least `int` wide):
+                                        the multiplication by `r'^k` and the conversion to `D` each react as the tag
+                                        prescribes for the exact value.  The other shapes of the radix-changing
+                                        conversion (source exponent ≠ 0, dividing stages, narrow sources, portable path:
+                                        `radixConvert` in general) are covered by the `sxr` correspondence lines and their
+                                        stage-by-stage oracle only.
 * `builtin_arith_correct`               `+ - *` on the intrinsic path, **any** signedness and width mix.
 * `div_correct`                         `/` on both paths, operands of one signedness, divisor ≠ 0.
 * `shl_correct`                         `<<` on both paths, every count ≥ 0 (no excluded class since the
@@ -89,6 +102,53 @@ example : checkedConvert .sat u64 (i64, 9223372036854775807) = .ok (u64, 9223372
 /-- the hypothesis `1 ≤ S.digits` of `convert_correct` cannot be dropped (model of a one-bit
 signed source; not a built-in type) -/
 example : checkedConvert .sat u8 (⟨1, true⟩, -1) ≠ checkedWant .sat u8 (-1) := by decide
+
+/-! ### 5b. an overflow_integer converted as a number; radix-changing scaling under the tag -/
+
+/-- `overflow_integer<S, tag>` → `overflow_integer<D, tag>` / → built-in `D`, built-in or other wrapper over `S` →
+`overflow_integer<D, tag>`: the outcome the tag prescribes for the unchanged value in `D` — for every source and
+destination width and signedness. -/
+theorem wrapper_convert_correct (tag : OvTag) (ht : tag ≠ .nat) (S D : IntTy) (hS : 1 ≤ S.digits) (hD : 1 ≤ D.bits)
+    (v : Int) (hv : S.InRange v) : wrapperConvert tag D (S, v) = checkedWant tag D v :=
+  checkedConvert_eq ht hS hD hv
+
+/-- In particular a negative value converted to an unsigned destination is a negative overflow, whatever the digit
+counts (a destination with at least as many digits as the source does NOT hold every value of a signed source). -/
+theorem wrapper_convert_negative_to_unsigned (tag : OvTag) (ht : tag ≠ .nat) (S D : IntTy) (hS : 1 ≤ S.digits)
+    (hD : 1 ≤ D.bits) (hu : D.signed = false) (v : Int) (hv : S.InRange v) (hneg : v < 0) :
+    wrapperConvert tag D (S, v) = react tag false D := by
+  rw [wrapper_convert_correct tag ht S D hS hD v hv]
+  have hlow : D.lowest = 0 := by simp [IntTy.lowest, hu]
+  exact want_neg ht (by omega)
+
+example : wrapperConvert .sat u32 (i32, -2) = .ok (u32, 0) := by decide
+example : wrapperConvert .thr u64 (i8, -128) = .throws false := by decide
+example : wrapperConvert .trp u8 (i8, -1) = .trap false := by decide
+example : wrapperConvert .sat u16 (⟨21, true⟩, -70000) = .ok (u16, 0) := by decide   -- elastic_integer<20>
+example : wrapperConvert .sat i8 (⟨21, true⟩, -70000) = .ok (i8, -128) := by decide
+example : wrapperConvert .sat u64 (i64, 9223372036854775807) = .ok (u64, 9223372036854775807) := by decide
+
+/-- `scaled_integer<S, power<0, rS>>` → `scaled_integer<overflow_integer<D, tag>, power<-k, rD>>`, `rS ≠ rD`, on the
+intrinsic path, for a source type at least `int` wide whose range holds `rD^k` (the library asserts it): the
+multiplication by `rD^k` reacts as the tag prescribes for the exact product in the source type, and the conversion
+to `D` as it prescribes for that outcome's value. -/
+theorem radix_scale_correct (tag : OvTag) (ht : tag ≠ .nat) (S D : IntTy) (hp32 : promote S = S) (hS : 1 ≤ S.digits)
+    (hD : 1 ≤ D.bits) (rS rD : Nat) (k : Nat) (hk : 0 < k) (hp : S.InRange ((rD : Int) ^ k)) (v : Int)
+    (hv : S.InRange v) :
+    radixConvert .builtin tag S 0 rS D (-(k : Int)) rD v =
+      (checkedWant tag S (v * (rD : Int) ^ k) >>= fun y => checkedWant tag D y.2) :=
+  radixConvert_mul_eq ht hp32 hS hD rS rD k hk hp hv
+
+-- non-vacuity: the boundary of `int * 1000` (2147483 fits, 2147484 does not), every tag, a narrower destination
+example : promote i32 = i32 ∧ i32.InRange ((10 : Int) ^ 3) := by decide
+example : radixConvert .builtin .sat i32 0 2 i32 (-3) 10 2147483 = .ok (i32, 2147483000) := by decide +kernel
+example : radixConvert .builtin .sat i32 0 2 i32 (-3) 10 2147484 = .ok (i32, 2147483647) := by decide +kernel
+example : radixConvert .builtin .sat i32 0 2 i32 (-3) 10 (-3000000) = .ok (i32, -2147483648) := by decide +kernel
+example : radixConvert .builtin .thr i32 0 2 i32 (-3) 10 3000000 = .throws true := by decide +kernel
+example : radixConvert .portable .trp i32 0 2 i32 (-3) 10 (-3000000) = .trap false := by decide +kernel
+example : radixConvert .portable .sat i32 4 2 i32 (-3) 10 268435456 = .ok (i32, 2147483647) := by decide +kernel
+example : radixConvert .builtin .sat i64 0 2 i16 (-2) 10 1000 = .ok (i16, 32767) := by decide +kernel
+example : radixConvert .builtin .sat i32 (-3) 10 i32 (-8) 2 2147483647 = .ok (i32, 2147483) := by decide +kernel
 
 /-! ## 1. `+ - *` on the intrinsic path -/
 
